@@ -79,11 +79,11 @@ def run_single(rng, res, idx):
     cfg = kh.make_config(rng, callables=False, intervals='divides', dtypes=('float64', 'float32'), inv_dtypes=('float32', 'float64'), kl=('const',))
     cfg['kl'] = {'const': ('const', rng.choice([1e-3, 1e-4, 1e-2])), 'mild': ('const', rng.choice([0.1, 1.0, 10.0])), 'big': ('const', 1e9),
                  'callable': ('lin', 1e-3, 2.0), 'none': ('none',)}[klkind]
-    cfg['lr'] = rng.choice([('const', 0.1), ('const', 1.0), ('const', 0.01), ('inv', 0.5)])
+    cfg['lr'] = rng.choice([('const', 0.1), ('const', 1.0), ('const', 0.01), ('inv', 0.5), ('const', 0.0), ('cyc', 0.2, 0.2, 2)])   # lr >= 0 is allowed: 0 gives a zero product, nu = 1
     ext_lr = ext_kl = None
     if rng.random() < 0.3:
         # hyper-parameters given as callables that read external state which the user changes between steps (LR scheduler)
-        ext_lr = [rng.choice([0.05, 0.2, 1.0]) * f for f in (1, 2, 3, 0.5, 4, 1)]
+        ext_lr = [rng.choice([0.05, 0.2, 1.0]) * f for f in (1, 2, 0, 0.5, 4, 1)]
         cfg['lr'] = ('ext', f'lr{idx}')
         kh.EXT[f'lr{idx}'] = ext_lr[0]
         if klkind in ('const', 'mild') and rng.random() < 0.5:
